@@ -245,6 +245,23 @@ def util_macros(cfg, table, log):
     return text
 
 
+# A failed obligation inside a function that has neither a sidecar contract nor a tagged clause (e.g. a function added to the
+# repository after the contracts were written, or an impl checked against a ghost *SpecImpl) is attributed by source file.
+FILE_DEFAULT_PROPS = {
+    'entity': ['C14'], 'error': ['C14'], 'version': ['C08', 'C09'], 'slot': ['C01', 'C03'], 'index': ['C03'],
+    'storage': ['C01', 'C02', 'C03'], 'traits': ['C01'], 'components': ['C02'], 'slices': ['C06'], 'view': ['C02'],
+    'data': ['C15'], 'pworld': ['C15'], 'pattr': ['C15'], 'pcfg': ['C15'], 'query': ['C05'], 'iter': ['C06'],
+}
+
+
+def default_props(gen, f):
+    for ln in range(f['sig_line'], f['end_line'] + 1):
+        o = gen.linemap[ln - 1][0]
+        if o and not o.startswith('C:'):
+            return list(FILE_DEFAULT_PROPS.get(o.split(':')[0], []))
+    return []
+
+
 def index_fns(gen):
     """Locate every fn in the final text and attach sidecar props by key."""
     msk = rs.mask(gen.text)
@@ -300,12 +317,119 @@ def build_storage_unit(cfg, n, outdir, extra_sidecar=None, tail_text=None, unit=
                 props[k] = s
     for f in gen.fns:
         s = props.get(f['key'])
-        f['props'] = list(s.props) if s else list(gen.linemap[f['sig_line'] - 1][1])
+        f['props'] = list(s.props) if s else (list(gen.linemap[f['sig_line'] - 1][1]) or default_props(gen, f))
         f['contract'] = bool(s)
         f['external'] = bool(s and s.kind == 'externbody')
     gen.panic_hits = dict(table.hits)
     os.makedirs(outdir, exist_ok=True)
     gen.path = os.path.join(outdir, '%s_%s_n%d.rs' % (unit, cfg.name.replace('+', '_'), n))
+    with open(gen.path, 'w') as fh:
+        fh.write(gen.text)
+    return gen
+
+
+# ---------------------------------------------------------------- macros crate unit (C15, C05)
+
+def extract_items(rel, fid, items):
+    """Marked text of the listed items of a repo file, in the given order."""
+    raw = add_markers(read_repo(rel), fid)
+    msk = rs.mask(raw)
+    blocks = find_blocks(raw, msk)
+    fns = find_fns(raw, msk, blocks)
+    out = []
+    for kind, name in items:
+        if kind in ('struct', 'enum', 'trait'):
+            m = re.search(r'(?m)^[ \t]*(pub(\([a-z]+\))?\s+)?%s\s+%s\b' % (kind, re.escape(name)), msk)
+            if not m:
+                raise ExtractError('%s %s not found in %s' % (kind, name, rel))
+            end = rs.find_depth0(msk, m.end(), '{;')
+            end = rs.match_close(msk, end) + 1 if msk[end] == '{' else end + 1
+            start = rs.line_start(raw, m.start())
+            # leading attributes / docs
+            while start > 0:
+                pls = rs.line_start(raw, start - 1)
+                pl = strip_markers(raw[pls:start - 1]).strip()
+                if pl.startswith('#[') or pl.startswith('//'):
+                    start = pls
+                else:
+                    break
+            out.append(raw[start:end])
+        elif kind == 'impl':
+            hits = [b for b in blocks if b.kind == 'impl' and b.key == sidecar.norm_key(name)]
+            if len(hits) != 1:
+                raise ExtractError('impl %s: %d matches in %s' % (name, len(hits), rel))
+            b = hits[0]
+            out.append(raw[rs.line_start(raw, b.header_start):b.close + 1])
+        elif kind == 'fn':
+            hits = [f for f in fns if f.block is None and f.name == name and f.has_body]
+            if len(hits) != 1:
+                raise ExtractError('fn %s: %d matches in %s' % (name, len(hits), rel))
+            f = hits[0]
+            out.append(raw[f.item_start:f.body_close + 1])
+        else:
+            raise ExtractError('bad item kind %s' % kind)
+    return '\n\n'.join(out)
+
+
+MACRO_ITEMS = [
+    ('macros/src/parse/attribute.rs', 'pattr', [('struct', 'ParseAttributeCfg')]),
+    ('macros/src/parse/world.rs', 'pworld', [('trait', 'HasAttributeId'), ('struct', 'ParseEcsWorld'), ('struct', 'ParseArchetype'),
+                                             ('struct', 'ParseComponent')]),
+    ('macros/src/parse/attribute.rs', 'pattr', [('impl', 'HasAttributeId for ParseArchetype'), ('impl', 'HasAttributeId for ParseComponent')]),
+    ('macros/src/parse/cfg.rs', 'pcfg', [('struct', 'ParseCfgDecorated')]),
+    ('macros/src/data.rs', 'data', [('struct', 'DataWorld'), ('struct', 'DataArchetype'), ('struct', 'DataComponent'),
+                                    ('impl', 'DataWorld'), ('impl', 'DataArchetype'), ('fn', 'evaluate_cfgs'), ('fn', 'advance_attribute_id')]),
+]
+
+
+def build_macros_unit(cfg, n, outdir):
+    gen = GenFile()
+    gen.cfg, gen.n, gen.unit = cfg, n, 'macros'
+    log = gen.log
+    table = load_panic_table()
+    sc = load_sidecar('macros.vsp', cfg)
+    stub = add_markers(open(os.path.join(CONTRACTS, 'macros_stub.rs')).read(), 'C:macros_stub.rs')
+    body = []
+    # one FileSpec per repo file: merge the items of the same file
+    by_file = {}
+    order = []
+    for rel, fid, items in MACRO_ITEMS:
+        if rel not in by_file:
+            by_file[rel] = (fid, [])
+            order.append(rel)
+        by_file[rel][1].extend(items)
+    for rel in order:
+        fid, items = by_file[rel]
+        text = extract_items(rel, fid, items)
+        log.rule('R-items', '%s: %s' % (rel, ', '.join('%s %s' % it for it in items)))
+        # R-derive: derives (Debug, Clone, speedy Readable/Writable) are dropped: no derived behaviour is used by the verified functions
+        text = rule_regex(text, log, 'R-derive', r'(?m)^[ \t]*#\[derive\([^\]]*\)\][ \t]*', '')
+        # R-syn: trait bounds on syn traits are dropped from struct headers
+        text = rule_regex(text, log, 'R-syn', r'<T:\s*Parse\s*\+\s*HasCfgPredicates>', '<T>')
+        # R-drain
+        text = rule_regex(text, log, 'R-drain', r'(\b[\w.]+)\.drain\(\.\.\)', r'gecs_drain_all(&mut \1)')
+        text = rule_cfg(text, cfg, log)
+        text = rule_debug_assert(text, cfg, rel, table, log)
+        text = rule_panic(text, rel, table, log)
+        text = rule_regex(text, log, 'R-vis', r'\bpub\((?:crate|super)\)', 'pub')
+        fspec = sc.files.get(rel) or sidecar.FileSpec(rel)
+        text, _ = apply_contracts(text, fspec, log, rel, None)
+        body.append('// ======== %s\n' % rel + text)
+        gen.sources.append(rel)
+    full = stub + '\nverus! {\n' + '\n'.join(body) + '\n} // verus!\nfn main() {}\n'
+    gen.text, gen.linemap = finalize(full)
+    gen.fns = index_fns(gen)
+    props = {}
+    for fs in sc.files.values():
+        for k, s in fs.fns.items():
+            props[k] = s
+    for f in gen.fns:
+        s = props.get(f['key'])
+        f['props'] = list(s.props) if s else (list(gen.linemap[f['sig_line'] - 1][1]) or default_props(gen, f))
+        f['contract'] = bool(s)
+        f['external'] = bool(s and s.kind == 'externbody')
+    os.makedirs(outdir, exist_ok=True)
+    gen.path = os.path.join(outdir, 'macros_%s.rs' % cfg.name.replace('+', '_'))
     with open(gen.path, 'w') as fh:
         fh.write(gen.text)
     return gen
